@@ -1,4 +1,5 @@
 import AslModel.Lemmas.P2Bin
+import AslModel.Lemmas.P2BinLane
 /-!
 # C05 — P2BIN writes the memory image described by the code file
 
@@ -232,10 +233,60 @@ Full statement that is NOT provable on the current tree (kept as the goal; `C05_
   theorem C05_bytes_lane (o : Opts) (lane : Lane) … (htab : ∀ a, laneHit o a = lane.ok a) (hdiv : o.sizeDiv = lane.div) :
       (procAll code o w sel).file.drop (absHeader o) = specImage lane w.start w.stop w.maxGran o.fill sel
 
-It holds (differentially tested on the exhaustive lane × offset grid, not yet proved) under the decidable side
-condition `w.start·g, (w.stop+1)·g, max w.start r.start · g ≡ 0 (mod lane.period)`; the proof would commute
-`laneFilter` with `writeAt` using `C05_lane_count_aligned`.
+`C05_bytes_lane_aligned` below proves it under the decidable side condition `LaneAligned lane w sel`
+(`Lemmas/P2BinLane.lean`): `w.start·G`, `(w.stop+1)·G` (G = `w.maxGran`) and, for every record that reaches into the window,
+`w.start·g` and `max w.start r.start · g` (g = the record's granularity) are ≡ 0 (mod `lane.period`).  For records of the
+window's granularity the third is the first.  Nothing is assumed about the *end* of a record, and nothing about records
+outside the window.  The proof commutes `laneFilter` with `writeAt` (`laneFilter_writeAt`) using the count of lane addresses
+in whole periods (`laneCount_aligned`).
 -/
+
+/-- **Lane image under the alignment condition.**  For every lane of the manual (`htab`/`hdiv`: the mask test and `SizeDiv`
+that `C05_lane_predicate` establishes for the generated table), every list of selected records and every window: if the window
+and the first address taken from every record lie on a boundary of the lane pattern (`LaneAligned`), the file behind the header
+is exactly the window image thinned by the lane – `ProcessFile`'s floor-divided seek position and length are then the lane
+positions.  Holds for any setting of the other quirks (only `laneExact = false`, today's code, is used). -/
+theorem C05_bytes_lane_aligned (q : Quirks) (o : Opts) (lane : Lane) (w : Win) (sel : List Sel)
+    (hq : q.laneExact = false) (hv : lane.Valid) (htab : ∀ a, laneHit o a = lane.ok a) (hdiv : o.sizeDiv = lane.div)
+    (hw : w.start ≤ w.stop) (hfit : (w.stop - w.start + 1) * w.maxGran < 4294967296)
+    (hwf : ∀ r ∈ sel, r.WF) (hg : ∀ r ∈ sel, r.gran ≤ w.maxGran) (hal : LaneAligned lane w sel) :
+    (procAll q o w sel).file.drop (absHeader o) = specImage lane w.start w.stop w.maxGran o.fill sel ∧
+    (procAll q o w sel).file.take (absHeader o) = List.replicate (absHeader o) 0 ∧
+    (procAll q o w sel).file.length = absHeader o + (w.stop - w.start + 1) * w.maxGran / lane.div := by
+  have h := procAll_lane q o lane w sel hq hv htab hdiv hw hfit hwf hg hal
+  have hl : (List.replicate (absHeader o) (0 : Byte)).length = absHeader o := List.length_replicate
+  obtain ⟨hB, hE, _⟩ := hal
+  have hN : ((w.stop - w.start + 1) * w.maxGran) % lane.period = 0 := by
+    have e : (w.stop - w.start + 1) * w.maxGran = (w.stop + 1) * w.maxGran - w.start * w.maxGran := by
+      rw [← Nat.sub_mul]; congr 1; omega
+    rw [e]
+    exact Nat.sub_mod_eq_zero_of_mod_eq (by rw [hE, hB])
+  refine ⟨?_, ?_, ?_⟩
+  · rw [h, List.drop_append_of_le_length (by rw [hl]; exact Nat.le_refl _)]
+    simp
+  · rw [h, List.take_append_of_le_length (by rw [hl]; exact Nat.le_refl _)]
+    simp
+  · have hi : (imageAll w.start w.stop w.maxGran o.fill sel).length = (w.stop - w.start + 1) * w.maxGran := by simp [imageAll]
+    rw [h, List.length_append, hl, specImage, laneFilter_length, hi, laneCount_aligned lane hv _ _ hB hN]
+
+/-- non-vacuity, lane EVEN with the table's mask test: window 2..5 of byte addresses, one record that starts in front of the
+window (clipped at the even address 2), one that begins at the even address 4 and ends at the odd address 4, one record outside
+the window that is not aligned; the hypotheses hold and the file is the two even bytes of the image -/
+example : let o : Opts := { startAuto := false, stopAuto := false, startAdr := 2, stopAdr := 5, fill := 0, sizeDiv := 2, mask := 1, eq := 0 }
+    let sel : List Sel := [⟨1, 1, [0xa1, 0xa2, 0xa3]⟩, ⟨1, 4, [0xb4]⟩, ⟨1, 7, [0xc7]⟩]
+    LaneAligned .even ⟨2, 5, 1⟩ sel ∧ (∀ r ∈ sel, r.WF) ∧ (∀ r ∈ sel, r.gran ≤ 1) ∧
+    (procAll code o ⟨2, 5, 1⟩ sel).file = [0xa2, 0xb4] ∧ specImage .even 2 5 1 0 sel = [0xa2, 0xb4] := by decide
+example : ∀ a, a < 4 → laneHit { sizeDiv := 2, mask := 1, eq := 0 } a = Lane.even.ok a := by decide
+/-- …and a granularity-2 record under BYTE1 in a window of granularity 2 -/
+example : LaneAligned (.byte 1) ⟨2, 5, 2⟩ [⟨2, 4, [1, 2, 3, 4]⟩, ⟨1, 0, [9]⟩] := by decide
+
+/-- the hypothesis is needed: the witness of `C05_finding_lane` (`-r 0-3 -m even`, record at the odd address 1) meets every other
+hypothesis and violates `LaneAligned` in its record conjunct only -/
+theorem C05_bytes_lane_aligned_hypothesis_needed :
+    ¬ LaneAligned .even ⟨0, 3, 1⟩ [⟨1, 1, [0xa1, 0xa2]⟩] ∧
+    ((0 * 1) % Lane.even.period = 0 ∧ ((3 + 1) * 1) % Lane.even.period = 0) ∧
+    (procAll code { startAuto := false, stopAuto := false, stopAdr := 3, fill := 0, sizeDiv := 2, mask := 1, eq := 0 }
+        ⟨0, 3, 1⟩ [⟨1, 1, [0xa1, 0xa2]⟩]).file.drop 0 ≠ specImage .even 0 3 1 0 [⟨1, 1, [0xa1, 0xa2]⟩] := by decide
 
 /-! ## Known findings: proved on the model (`code` quirks), witnesses replayed on the real binary every run -/
 
